@@ -34,7 +34,7 @@ theorem full_scheduleLoop {s : State} (hf : Full s) (hs : List Header) (f : Nat)
   induction hs generalizing f s with
   | nil => exact hf
   | cons h t ih =>
-    simp only [scheduleLoop]
+    simp only [scheduleLoop, schedOneFast_eq]
     split
     · exact hf
     · split
